@@ -535,12 +535,25 @@ func (w *world) listed(r *subRec) bool {
 // have been told about by now and has not (and the number of obligations):
 // those by another actor on its key that started after Subscribe returned
 // and after its consumer last resumed reading.
+//
+// s was told about publish p of actor x when, after p started, it received
+// the event of p itself or of a later publish of x (identified by their tags),
+// or two events of earlier publishes of x: the documented de-duplication drops
+// p only when two DocChanged of x are already queued in the batch that is
+// taken after p, and both are then sent to s. One earlier event alone proves
+// nothing: it may have sat in the buffer since before p (a stalled consumer
+// that resumes reads such a one first).
 func (w *world) pending(r *subRec) (out []*call, obligations int) {
 	floor := max(r.subExit, r.resumedAt.Load())
 	w.mu.Lock()
 	var ps []*call
+	entryOf := map[string]int64{}
 	for _, c := range w.calls {
-		if c.op == "pub" && c.exit != 0 && c.key == r.key && c.id != r.id && c.entry > floor {
+		if c.op != "pub" || c.key != r.key {
+			continue
+		}
+		entryOf[c.tag] = c.entry
+		if c.exit != 0 && c.id != r.id && c.entry > floor {
 			ps = append(ps, c)
 		}
 	}
@@ -548,9 +561,16 @@ func (w *world) pending(r *subRec) (out []*call, obligations int) {
 	r.mu.Lock()
 	defer r.mu.Unlock()
 	for _, p := range ps {
-		told := false
+		told, earlier := false, 0
 		for _, rc := range r.receipts {
-			if rc.changed && rc.id == p.id && rc.stamp > p.entry {
+			if !rc.changed || rc.id != p.id || rc.stamp <= p.entry {
+				continue
+			}
+			if e, known := entryOf[rc.tag]; !known || e >= p.entry {
+				told = true
+				break
+			}
+			if earlier++; earlier >= 2 {
 				told = true
 				break
 			}
